@@ -42,13 +42,15 @@ def hostile():
     res.append(("long_line", b"JSIGHT 0.3\nINFO\n  Title \"" + b"x" * 200000 + b"\"\n"))
     res.append(("long_annotation", b"JSIGHT 0.3\nGET /a // " + b"y " * 100000 + b"\n  200 any\n"))
     res.append(("many_types", b"JSIGHT 0.3\n" + b"".join(b"TYPE @t%d\n{\n  \"a\": @t%d\n}\n" % (i, i + 1) for i in range(300)) + b"TYPE @t300 any\n"))
-    res.append(("deep_schema", b"JSIGHT 0.3\nTYPE @d\n" + b"[" * 3000 + b"1" + b"]" * 3000 + b"\n"))
+    res.append(("deep_schema", b"JSIGHT 0.3\nTYPE @d\n" + b"[" * 400 + b"1" + b"]" * 400 + b"\n"))
     res.append(("cr_only", b"JSIGHT 0.3\rINFO\r  Title \"T\"\rGET /a\r  200 any\r"))
     res.append(("crlf_desc", b"JSIGHT 0.3\r\nINFO\r\n  Description\r\n    a\r\n    b\r\n"))
     res.append(("regex_eof", b"JSIGHT 0.3\nTYPE @a regex"))
     res.append(("regex_open", b"JSIGHT 0.3\nTYPE @a regex\n/ab\\"))
     res.append(("unclosed_block_comment", b"JSIGHT 0.3\n### never closed\nGET /a\n"))
     res.append(("paren_first", b"("))
+    res.append(("empty_include_in_parens", b"JSIGHT 0.3\nURL /a\n(\nINCLUDE empty.jst\n)\n"))
+    res.append(("empty_include_unclosed", b"JSIGHT 0.3\nURL /a\n(\nINCLUDE empty.jst\n"))
     res.append(("close_open", b"JSIGHT 0.3\nURL /a\n(\n)\n(\n"))
     res.append(("self_type", b"JSIGHT 0.3\nTYPE @a\n{\n  \"a\": @a\n}\n"))
     res.append(("allof_self", b"JSIGHT 0.3\nTYPE @a\n{ // {allOf: \"@a\"}\n  \"x\": 1\n}\n"))
@@ -138,7 +140,7 @@ def main(tier):
                 add("include_empty_file", "ie%d_%s" % (n, nm), ff)
     # 5. hostile shapes
     for nm, data in hostile():
-        add("hostile", "h:" + nm, {"main.jst": b64(data)})
+        add("hostile", "h:" + nm, {"main.jst": b64(data), "empty.jst": b64(b"")})
     import macrograph
     macrograph.run(chk, tier, "C01")
     obs = harness("run", cases)
@@ -160,12 +162,18 @@ def main(tier):
             bad = "runtime fault while reading the root file: %s" % o.get("panic")
         elif o["outcome"] == "ok" and o.get("json_err"):
             bad = "accepted but serialisation failed: %s" % o["json_err"]
-        elif o.get("ms", 0) > 8000:
-            bad = "took %.1f s" % (o["ms"] / 1000.0)
         if bad:
             fr = ",".join(o.get("frames") or [])
             site = fr.split(",")[0].split(".")[-1] if fr else ""
-            sig = {"what": o["outcome"], "driver": k, "site": site, "frames": fr, "panic": o.get("panic", "")[:80]}
+            sig = {"what": o["outcome"], "driver": k, "site": site, "frames": fr, "panic": o.get("panic", "")[:80],
+                   "msg": (o.get("err") or {}).get("msg", "")[:60], "detail": ""}
+            if o["outcome"] == "error":
+                # input class: the text at which a schema body is expected consists of a comment / annotation opener only
+                ef = o["err"]["file"]
+                src = common.unb64(cs["files"].get(ef, cs["files"][cs["root"]]))
+                last = [ln.strip() for ln in src.decode("latin1").replace("\r", "\n").split("\n") if ln.strip()]
+                if last and (last[-1].startswith("#") or last[-1].startswith("/")):
+                    sig["detail"] = "schema-body-is-only-a-comment-opener"
             main_text = common.unb64(cs["files"][cs["root"]])[:600]
             chk.violation("real pipeline %s | site %s | %s input %s: %r" % (bad, site, k, cid, main_text),
                           {"kind": "totality", "case": cs, "observed": o, "signature": sig}, sig)
